@@ -67,6 +67,7 @@ pub fn other_parts(id: &str, tier: &str, _seed: i64) -> Vec<crate::report::Part>
         "C06" => vec![crate::enumc::c06::run(tier)],
         "C13" => vec![crate::enumc::c13::run(tier)],
         "C16" => vec![crate::loomc::run(tier)],
+        "C17" if tier == "thorough" || std::env::var("VERIF_BINCONF").is_ok() => vec![crate::binconf::run(tier)],
         "C19" => vec![crate::enumc::c19::run(tier)],
         _ => vec![],
     }
